@@ -2,7 +2,7 @@ from vdriver import U
 
 PROPERTY = {
     "level": "proof",
-    "explanation": "bit reversal, byte-order accessors, sqrt fast path and Newton start value, gcd termination are loop-free or loop-contract proofs over all 2^32/2^64 inputs; sqrt end-to-end and gcd/lcm divisibility are bounded stand-ins",
+    "explanation": "bit reversal, byte-order accessors, sqrt fast path and Newton start value, gcd termination are loop-free or loop-contract proofs over all 2^32/2^64 inputs; lcm consults the full-width gcd of exactly its arguments (callee replaced by contract, all argument pairs); sqrt end-to-end (small arguments and the neighbourhoods of perfect squares 2^k +- j at every magnitude) and gcd/lcm divisibility are bounded stand-ins",
     "trusted_base": ["cbmc 6.11.0 (goto-cc C front end, DFCC loop-contract instrumentation, bit-precise SAT back end)",
                      "machine model LP64 little endian; __builtin_clz/__builtin_clzl as modelled by cbmc"],
     "assumptions": [
@@ -46,4 +46,16 @@ UNITS = [
       defines=["GCD_BOUND=64u"], functions=["a_u64_gcd", "a_u64_lcm"]),
     U("gcdlcm64_scaled", "isqrt.c", "h_gcdlcm64_scaled", replay=RP, level="B", bound="a = A*2^40, b = B*2^40, A, B < 32, Euclid loop unwound completely (10)", unwind=10,
       defines=["GCD_BOUND=32u", "GCD_SHIFT=40"], functions=["a_u64_gcd", "a_u64_lcm"]),
+    U("lcm64_protocol", "isqrt.c", "h_lcm64_protocol", replay=RP, functions=["a_u64_lcm"], replace=["a_u64_gcd/contract_a_u64_gcd", "a_u32_gcd/contract_a_u32_gcd"],
+      key=["consults the 64-bit gcd"], timeout=120),
+    U("lcm32_protocol", "isqrt.c", "h_lcm32_protocol", replay=RP, functions=["a_u32_lcm"], replace=["a_u64_gcd/contract_a_u64_gcd", "a_u32_gcd/contract_a_u32_gcd"],
+      key=["consults the gcd"], timeout=120),
+    U("lcm64_wide", "isqrt.c", "h_lcm64_wide", replay=RP, level="B", bound="a = A*2^33, b = B, 0 < A, B < 32, Euclid loop unwound completely (12)", unwind=12,
+      defines=["GCD_BOUND=32u"], functions=["a_u64_gcd", "a_u64_lcm"]),
+    U("sqrt64_squares_above", "isqrt.c", "h_sqrt64_squares", replay=RP, level="B", bound="x in {n^2 - 1, n^2, n^2 + 2n} for n = 2^k + j, j < 4, all k", functions=["a_u64_sqrt"], defines=["BELOW=0"],
+      unwindset=[("a_u64_sqrt.0", 12)], key=["the root of n\\^2 - 1"], timeout=900, solver="cadical", split=4),
+    U("sqrt64_squares_below", "isqrt.c", "h_sqrt64_squares", replay=RP, level="B", bound="x in {n^2 - 1, n^2, n^2 + 2n} for n = 2^k - 1 - j, j < 4, all k", functions=["a_u64_sqrt"], defines=["BELOW=1"],
+      unwindset=[("a_u64_sqrt.0", 12)], key=["the root of n\\^2 - 1"], timeout=900, solver="cadical", split=4),
+    U("sqrt32_squares", "isqrt.c", "h_sqrt32_squares", replay=RP, level="B", bound="x in {n^2 - 1, n^2, n^2 + 2n} for n = 2^k + j and 2^k - 1 - j, j < 4, all k", functions=["a_u32_sqrt"],
+      unwindset=[("a_u32_sqrt.0", 12)], key=["the root of n\\^2 - 1"], timeout=600),
 ]
